@@ -531,7 +531,7 @@ func (g *docGen) pagingText(next bool) string {
 
 // pager writes a pager and returns a page URL consistent with it.
 func (g *docGen) pager(host string) string {
-	kind := g.r.Intn(12)
+	kind := g.r.Intn(13)
 	n := g.r.Range(2, 9)
 	cur := g.r.Range(1, n)
 	var hrefs []string
@@ -576,6 +576,14 @@ func (g *docGen) pager(host string) string {
 	case 8:
 		g.f("pager-descending")
 		mk = func(i int) string { return fmt.Sprintf("%s/thread/%d", base, n-i+1) }
+	case 12:
+		g.f("pager-wordpress-plain")
+		mk = func(i int) string {
+			if i == 1 {
+				return base + "/blog?p=123"
+			}
+			return fmt.Sprintf("%s/blog?p=123&page=%d", base, i)
+		}
 	case 11:
 		// query-only relative references: they keep the whole path of the page URL
 		g.f("pager-query-only-relative")
@@ -636,7 +644,15 @@ func (g *docGen) pager(host string) string {
 		}
 	}
 	wrap := Pick(g.r, []string{"div", "ul", "p", "span", "nav"})
-	g.wf(`<%s class="%s">`, wrap, Pick(g.r, []string{"pager", "pagination", "pages", "nav-links", "x"}))
+	// container and link class names as popular CMSs and forum packages emit them
+	cmsContainers := []string{"pager", "pagination", "pages", "nav-links", "x", "page-links", "wp-pagenavi", "page-numbers", "post-nav-links", "pager-wrapper item-list", "pagenav", "topic-actions pagination", "mw-prevlink-container", "paging-navigation", "comment-navigation", "article-pager clearfix", "btn-group pagination-sm", "multipage"}
+	cmsLinks := []string{"", "", "page-numbers", "post-page-numbers", "next page-numbers", "prev page-numbers", "page larger", "page smaller", "nextpostslink", "previouspostslink", "pager-item", "pager-next", "pager-previous", "pagination-next", "page-link", "button-next comment-link", "nav-next meta-nav", "pagelink share"}
+	g.wf(`<%s class="%s">`, wrap, Pick(g.r, cmsContainers))
+	linkCls := ""
+	if g.r.Bool() {
+		g.f("pager-cms-classes")
+		linkCls = Pick(g.r, cmsLinks)
+	}
 	if g.r.P(1, 2) {
 		g.f("prev-anchor")
 		if cur > 1 {
@@ -659,7 +675,11 @@ func (g *docGen) pager(host string) string {
 		if i == cur && g.r.P(3, 4) {
 			item = Pick(g.r, []string{"<strong>" + txt + "</strong>", "<span class=\"current\">" + txt + "</span>", txt, `<a href="javascript:;">` + txt + `</a>`, `<a>` + txt + `</a>`})
 		} else {
-			item = fmt.Sprintf(`<a href="%s">%s</a>`, hrefs[i-1], txt)
+			if linkCls != "" {
+				item = fmt.Sprintf(`<a class="%s" href="%s">%s</a>`, linkCls, hrefs[i-1], txt)
+			} else {
+				item = fmt.Sprintf(`<a href="%s">%s</a>`, hrefs[i-1], txt)
+			}
 		}
 		if wrap == "ul" {
 			item = "<li>" + item + "</li>"
